@@ -440,6 +440,26 @@ def judgeComponentVars (vs : List (String × String × List (String × String)))
   | some v => s!"fail:process-wide-component:{v.1} ({v.2.1}) is ONE object for every pool of the process: what it caches or counts is shared by all providers / guns built from that package"
   | none => "ok"
 
+/-- round 6: the functions that may call a method the lock-facts extractor takes as set-up only (`setup` of lockTargets in
+gen/area_locks.go: writes of such a method do not make a field mutable in the table) — constructors of the shared client
+pool on the warm-up path, the decode functions that build a scenario definition, the provider's `Run` before the first
+delivery (the channel send orders it before every `Acquire`) -/
+def setupCallersReviewed : List String := [
+  "components/guns/grpc.Gun.prepareClientPool", "components/guns/http.BaseGun.prepareClientPool",
+  "components/providers/http/provider.Provider.Run",
+  "components/providers/scenario/config.ExtractVariableStorage",
+  "components/providers/scenario/grpc.convertConfigToStep", "components/providers/scenario/http.convertConfigToRequest",
+  "components/providers/scenario/import.NewAssertResponsePostprocessor",
+  "components/providers/scenario/import.NewGRPCAssertResponsePostprocessor"
+]
+
+def setupCallerOk (r : String × String) : Bool := setupCallersReviewed.contains r.2
+
+def judgeSetupCallers (rs : List (String × String)) : String :=
+  match rs.find? (fun r => !setupCallerOk r) with
+  | some r => s!"fail:setup-call:{r.1} is called by {r.2}: the lock facts take that method as set-up only (its writes are not guarded), and this caller is not one of the reviewed set-up functions"
+  | none => "ok"
+
 /-! ### reference flows on the instance-facing side of the http provider (`Gen.Locks.ammoFlows`) -/
 
 /-- a regenerated row: (function, kind of reference, class of destination, destination, source) -/
